@@ -11,3 +11,41 @@ pub struct Pushed;
 // R-err: `format!("{}", err).into()`
 #[verifier::external_body]
 pub fn panic_msg(e: VmError) -> PanicMsg { unimplemented!() }
+
+// ---- <Lazy as Userdata>::deep_clone: a lazy value crossing heaps
+pub uninterp spec fn same_value(a: Value, b: Value) -> bool;         // structurally equal copy
+pub uninterp spec fn fresh_copy(a: Value) -> bool;                   // produced by the receiving cloner during this clone
+impl Value {
+    #[verifier::external_body]
+    pub fn clone_unrooted(&self) -> (r: Value) ensures r == *self { unimplemented!() }
+}
+#[verifier::external_body] pub struct ThreadPtr { _p: () }
+#[verifier::external_body] pub struct Cloner { _p: () }
+pub uninterp spec fn cloner_thread(c: Cloner) -> ThreadPtr;
+pub struct Variants { pub v: Value }
+impl Variants {
+    #[verifier::external_body]
+    pub fn unrooted(self) -> (r: Value) ensures r == self.v { unimplemented!() }
+}
+pub enum CloneError { Message(ErrText), Other }
+#[verifier::external_body] pub struct ErrText { _p: () }
+#[verifier::external_body]
+pub fn err_text(s: &str) -> ErrText { unimplemented!() }
+impl Cloner {
+    // ASSUMED (its share-or-copy guard is proved in the C13 clone unit): the result is a copy the receiver may hold
+    #[verifier::external_body]
+    pub fn deep_clone(&mut self, value: &Value) -> (r: Result<Variants, CloneError>)
+        ensures r is Ok ==> same_value(r->Ok_0.v, *value) && fresh_copy(r->Ok_0.v), cloner_thread(*final(self)) == cloner_thread(*old(self))
+    { unimplemented!() }
+    #[verifier::external_body]
+    pub fn thread(&self) -> (r: ThreadPtr) ensures r == cloner_thread(*self) { unimplemented!() }
+}
+#[verifier::external_body]
+pub fn gcptr_from_raw(vm: ThreadPtr) -> (r: ThreadPtr) ensures r == vm { unimplemented!() }
+// Lazy<T> projected: `value: Mutex<Lazy_>` (R-lock), `thread`
+pub struct Lazy { pub value: Lazy_, pub thread: ThreadPtr }
+// `deep_cloner.gc().alloc(Move(data))`: allocates the boxed userdata in the receiving heap; the result designates `data`
+#[verifier::external_body]
+pub fn cloner_alloc(c: &mut Cloner, data: Lazy) -> (r: Result<Lazy, CloneError>)
+    ensures r is Ok ==> r->Ok_0 == data
+{ unimplemented!() }
